@@ -642,6 +642,11 @@ func (ri *RedisInput) sendPsync(cli *redis.StandaloneRedis, offset Offset) (Offs
 			if x.Err != nil {
 				return Offset{}, false, 0, x.Err
 			}
+			if x.Size <= 0 {
+				// "$0" would keep this loop waiting for a size that never comes (nothing else is
+				// sent on the channel, no context is looked at), "$-n" would be recorded as a snapshot
+				return Offset{}, false, 0, fmt.Errorf("invalid rdb size : %d", x.Size)
+			}
 			rdbSize = x.Size
 		case <-time.After(time.Second):
 		}
